@@ -6,6 +6,28 @@ MIMC = ["mimc/" + c for c in _CURVES8]
 P2 = ["poseidon2/" + c for c in _CURVES8 + ["koalabear", "babybear", "goldilocks"]]
 SIS = ["sis/" + f for f in ("koalabear", "babybear", "goldilocks", "bls12-377")]
 
+
+def _cold_classes():
+    """Class labels of TestC14_ColdStart: one per (package, entry point), see harness/c14/coldstart_test.go."""
+    out = ["cold_start"]
+    for c in _CURVES8:
+        for e in ("Sum", "NewMiMC.Write.Sum", "NewMiMC(WithByteOrder(BigEndian))", "NewMiMC(WithByteOrder(LittleEndian))", "registry.New",
+                  "GetConstants", "NewMiMC.SetState.Write.Sum", "NewMiMC.Write.State", "NewMiMC.WriteString.Sum"):
+            out.append("cold_start:mimc/%s:%s" % (c, e))
+    dflt = {"bls12-377": (2, 6, 26), "bls24-317": (2, 6, 40), "koalabear": (16, 6, 21), "babybear": (16, 8, 13), "goldilocks": (8, 6, 17)}
+    second = {"koalabear": (24, 6, 21), "babybear": (24, 8, 21), "goldilocks": (12, 6, 17)}
+    for c in _CURVES8 + ["koalabear", "babybear", "goldilocks"]:
+        d, w = dflt.get(c, (2, 6, 50)), second.get(c, (3, 8, 56))
+        for e in ("NewPermutation(%d,%d,%d).Permutation" % d, "NewPermutation(%d,%d,%d).Permutation" % w,
+                  "NewPermutation(%d,4,3).Permutation" % d[0], "NewPermutationWithSeed.Permutation", "NewPermutation.Compress",
+                  "NewMerkleDamgardHasher.Write.Sum", "registry.New", "GetDefaultParameters", "NewParameters"):
+            out.append("cold_start:poseidon2/%s:%s" % (c, e))
+    for f in ("koalabear", "babybear", "goldilocks", "bls12-377"):
+        fast = "NewRSis(5,6,16,12).Hash" if f in ("goldilocks", "bls12-377") else "NewRSis(5,9,16,300).Hash"
+        out += ["cold_start:sis/%s:NewRSis(5,3,8,10).Hash" % f, "cold_start:sis/%s:%s" % (f, fast)]
+    return out
+
+
 PROP = dict(
     rule=("one-shot cases: a (hash instance, constructor, parameter set, message) tuple with blocks from the field boundary "
           "lattice; streaming cases: one rapid history of Write/Sum/Reset/State/SetState/WriteString/re-split calls per case, "
@@ -37,11 +59,14 @@ PROP = dict(
                    "compress_bad:noncanonical", "compress_bad:short", "compress_odd_width", "rp=0",
                    "bound=8", "bound=16", "bound=32", "bound=64", "logDeg=1", "logDeg=9", "fastpath_params", "every_length",
                    "sampled_lengths", "max>256", "ctor_rejects_bound", "id", "sis_sage_koalabear", "poseidon2_plonky3_csv",
-                   "mimc_bn254_vectors_json"],
+                   "mimc_bn254_vectors_json"] + _cold_classes(),
     jobs=[
         dict(name="anchors", pkg="c14", run="^TestC14_Anchors$", rapid=False),
         # regressions of the defects found (F9, F10, F61, F62), the registry, and the seed corpus of the fuzz target (no fuzzing)
         dict(name="regress", pkg="c14", run="^(TestC14_Regress|TestC14_Registry|FuzzC14_.*)$", rapid=False),
+        # every exported entry point of every hash package as the FIRST use of its package in a fresh child process:
+        # cold result == reference model == result after the lazy initialisation was forced through the other paths
+        dict(name="coldstart", pkg="c14", run="^TestC14_ColdStart$", rapid=False, weight=4),
         dict(name="mimc", pkg="c14", run="^TestC14_MiMC_OneShot$", shards=MIMC, checks=(1500, 20000)),
         dict(name="p2perm", pkg="c14", run="^TestC14_Poseidon2_Perm$", shards=P2, checks=(1500, 20000)),
         dict(name="sis", pkg="c14", run="^TestC14_SIS$", shards=SIS, checks=(600, 8000), seeds=(2, 4)),
